@@ -306,3 +306,30 @@ Proof.
   intros D Hr. unfold read_value, jp_eval. rewrite parse_pointer_spec, D, (jp_parse_agrees p path D Hr).
   apply (obs_of_res_get _ _ (resolve_spec path (r_root st))).
 Qed.
+
+(** the RFC 6901 oracle for the two public functions accepts what they do *)
+Lemma opt_json_eqb_refl o : opt_json_eqb o o = true.
+Proof. destruct o as [j|]; cbn [opt_json_eqb]; [apply json_eqb_refl|reflexivity]. Qed.
+
+Lemma jp_ok d p : ok_jp d p (jp_parse p) (jp_eval d p) = true.
+Proof.
+  unfold ok_jp. destruct (rfc_decode p) as [path|] eqn:D; [|reflexivity].
+  assert (E : jp_parse p = path).
+  { unfold rfc_decode in D. unfold jp_parse. destruct p as [|c rest]; [now injection D as <-|].
+    destruct (c =? SLASH) eqn:Ec; [|discriminate].
+    unfold sp_untoken in D. symmetry. now apply (collect_opt_map_if esc_wf _ _ _ D). }
+  unfold jp_eval. rewrite E. apply andb_true_iff. split.
+  - apply (leqb_eq str_eqb str_eqb_eq). reflexivity.
+  - apply opt_json_eqb_refl.
+Qed.
+
+(** ... and pins the tokens: whatever it accepts on an RFC pointer is the
+    RFC tokenisation, and "/" is the single empty token *)
+Lemma jp_ok_pins d p toks ev path :
+  rfc_decode p = Some path -> ok_jp d p toks ev = true -> toks = path /\ ev = sp_get d path.
+Proof.
+  intros D H. unfold ok_jp in H. rewrite D in H. apply andb_true_iff in H. destruct H as [H1 H2].
+  split; [now apply (leqb_eq str_eqb str_eqb_eq)|].
+  destruct ev as [a|], (sp_get d path) as [b|]; cbn [opt_json_eqb] in H2; try discriminate; try reflexivity.
+  f_equal. now apply json_eqb_eq.
+Qed.
